@@ -7,6 +7,7 @@ package queue
 // are explicitly mode-aware.
 
 import (
+	"fmt"
 	"bufio"
 	"context"
 	"encoding/json"
@@ -105,6 +106,43 @@ func stubCreate(name string) (*os.File, error) {
 	f := new(os.File)
 	fsm.handles[f] = &fsHandle{name: name, write: true}
 	return f, nil
+}
+
+// OpenFile: the flag combinations a spool writer can reasonably use; anything
+// else is refused loudly rather than modelled wrongly.
+//
+//verif:stub os.OpenFile
+func stubOpenFile(name string, flag int, perm os.FileMode) (*os.File, error) {
+	acc := flag & (os.O_RDONLY | os.O_WRONLY | os.O_RDWR)
+	rest := flag &^ (os.O_RDONLY | os.O_WRONLY | os.O_RDWR | os.O_SYNC)
+	_, exists := fsm.files[name]
+	switch {
+	case acc == os.O_RDONLY && rest == 0:
+		return stubOpen(name)
+	case rest == os.O_CREATE|os.O_TRUNC:
+		return stubCreate(name)
+	case rest == os.O_CREATE|os.O_EXCL, rest == os.O_CREATE|os.O_EXCL|os.O_TRUNC:
+		if exists {
+			return nil, &fs.PathError{Op: "open", Path: name, Err: fs.ErrExist}
+		}
+		return stubCreate(name)
+	case rest == os.O_TRUNC:
+		if !exists {
+			return nil, fsNotExist("open", name)
+		}
+		return stubCreate(name)
+	case rest == os.O_CREATE|os.O_APPEND, rest == os.O_APPEND:
+		if !exists {
+			if rest&os.O_CREATE == 0 {
+				return nil, fsNotExist("open", name)
+			}
+			return stubCreate(name)
+		}
+		f := new(os.File)
+		fsm.handles[f] = &fsHandle{name: name, write: true}
+		return f, nil
+	}
+	panic(fmt.Sprintf("file model: os.OpenFile flags %#x are not modelled", flag))
 }
 
 //verif:stub os.Open
